@@ -49,6 +49,11 @@ impl CaseIo for Case {
     }
 }
 
+thread_local! {
+    /// the previous case's header without its last two bytes (an unfinished header)
+    static PREVIOUS: std::cell::RefCell<Vec<u8>> = std::cell::RefCell::new(Vec::new());
+}
+
 fn cut_class_v1(h: &[u8], k: usize) -> &'static str {
     if k == 0 {
         "cut-empty"
@@ -91,11 +96,14 @@ fn reads(total: usize, seed: u32) -> Vec<usize> {
 }
 
 pub fn judge(c: &Case, st: &mut Stats) -> Verdict {
-    // the header (and every prefix of it) is parsed from this thread's reusable read buffer
-    crate::engine::in_arena(&c.header, |h| judge_at(c, h, st))
+    // the whole stream (header ++ trailer) lives in this thread's reusable read buffer; the header, its prefixes and the
+    // receiver's growing buffer are all slices of it that start at the same address
+    let mut full = c.header.clone();
+    full.extend_from_slice(&c.trailer);
+    crate::engine::in_arena(&full, |stream| judge_at(c, &stream[..c.header.len()], stream, st))
 }
 
-fn judge_at(c: &Case, h: &Vec<u8>, st: &mut Stats) -> Verdict {
+fn judge_at(c: &Case, h: &[u8], stream: &Vec<u8>, st: &mut Stats) -> Verdict {
     // one-shot
     let one = imp::auto(h);
     // "its header bytes": the candidate is a complete header on the wire (v1: the line through its CRLF, v2: 16 + the
@@ -180,8 +188,6 @@ fn judge_at(c: &Case, h: &Vec<u8>, st: &mut Stats) -> Verdict {
     st.class_n("prefixes-checked", h.len() as u64);
 
     // ---- receiver simulation: re-parse the growing buffer after each read, stop at the first complete result
-    let mut stream = h.clone();
-    stream.extend_from_slice(&c.trailer);
     let mut have = 0usize;
     let mut stopped_at: Option<usize> = None;
     for n in reads(stream.len(), c.split_seed) {
@@ -255,6 +261,62 @@ fn judge_at(c: &Case, h: &Vec<u8>, st: &mut Stats) -> Verdict {
             ));
         }
     }
+    // ---- a receiver that reuses ONE read buffer for every connection (examples/server.rs does): the previous
+    // connection delivered an unfinished header and hung up; this connection's bytes then arrive in the same buffer
+    if stream.len() <= 4096 {
+        let prev: Vec<u8> = PREVIOUS.with(|p| p.borrow().clone());
+        let mut have = 0usize;
+        let mut first = true;
+        for n in reads(stream.len(), c.split_seed.rotate_left(21)) {
+            have += n;
+            if first {
+                crate::engine::in_arena2(&prev, |v| {
+                    let _ = imp::auto(v);
+                });
+                first = false;
+            }
+            let verdict = crate::engine::in_arena2(&stream[..have], |v| {
+                let r = imp::auto(v);
+                match &r {
+                    Ok(r) => {
+                        let same = match &one {
+                            Ok(a) => a == r,
+                            _ => true,
+                        };
+                        Some((r.is_complete(), same, imp::short(&format!("{:?}", r))))
+                    }
+                    Err(_) => None,
+                }
+            });
+            let (complete, same, shown) = match verdict {
+                Some(v) => v,
+                None => break, // a panic: C03's business
+            };
+            if complete {
+                if have < h.len() || !same {
+                    return Err(Fail::new(
+                        "receiver-diverges:reused-buffer",
+                        sh(h),
+                        "HeaderResult::parse in a read loop on a buffer that held another connection's unfinished header before",
+                        format!("stops once all {} header bytes have arrived, with the one-shot result", h.len()),
+                        format!("stopped with {} bytes buffered: {}", have, shown),
+                    ));
+                }
+                break;
+            } else if have >= h.len() {
+                return Err(Fail::new(
+                    "receiver-keeps-waiting:reused-buffer",
+                    sh(h),
+                    "HeaderResult::parse in a read loop on a buffer that held another connection's unfinished header before",
+                    format!("a complete result once all {} header bytes are buffered", h.len()),
+                    format!("still incomplete with {} bytes buffered: {}", have, shown),
+                ));
+            }
+        }
+        st.class("reused-buffer-receiver");
+    }
+    // what the next case's receiver finds in the buffer: this header without its last two bytes (an unfinished header)
+    PREVIOUS.with(|p| *p.borrow_mut() = h[..h.len().saturating_sub(2)].to_vec());
     // v1: a receiver that keeps text (re-parses with try_from(&str) whenever the buffer is valid UTF-8 up to the read boundary)
     if is_v1 {
         if let Ok(text) = std::str::from_utf8(&stream) {
